@@ -567,7 +567,10 @@ class Interp:
                 # obj.prop = value where prop has a setter: interpret the setter on the object
                 key = '__val@%d' % len(self._inline_stack)
                 s.env[key] = v
-                call = ast.Call(func=ast.Attribute(value=t.value, attr=t.attr, ctx=ast.Load()), args=[ast.Name(id=key, ctx=ast.Load())], keywords=[])
+                bkey = '__base@%d' % len(self._inline_stack)
+                s.env[bkey] = base          # the target object was evaluated once (objects.pop(0).title = ...): not again inside the call
+                call = ast.Call(func=ast.Attribute(value=ast.Name(id=bkey, ctx=ast.Load()), attr=t.attr, ctx=ast.Load()),
+                                args=[ast.Name(id=key, ctx=ast.Load())], keywords=[])
                 for x in ast.walk(call):
                     if not hasattr(x, 'lineno'):
                         x.lineno, x.col_offset, x.end_lineno, x.end_col_offset = getattr(node, 'lineno', 0), 0, getattr(node, 'lineno', 0), 0
@@ -585,6 +588,7 @@ class Interp:
                     self.imprecise.append('setter of %s could not be interpreted (line %s)' % (txt, getattr(node, 'lineno', '?')))
                 self._force_callee = None
                 s.env.pop(key, None)
+                s.env.pop(bkey, None)
                 return
             if isinstance(base, (Obj, TextObj, ListObj)):
                 base.attrs[t.attr] = v
@@ -608,13 +612,16 @@ class Interp:
                 # obj[key] = value on a heap object whose class defines __setitem__: interpret that method
                 key = '__val@%d' % len(self._inline_stack)
                 s.env[key] = v
-                call = ast.Call(func=ast.Attribute(value=t.value, attr='__setitem__', ctx=ast.Load()),
-                                args=[t.slice, ast.Name(id=key, ctx=ast.Load())], keywords=[])
+                bkey, ikey = '__base@%d' % len(self._inline_stack), '__idx@%d' % len(self._inline_stack)
+                s.env[bkey], s.env[ikey] = base, idx           # evaluated once above
+                call = ast.Call(func=ast.Attribute(value=ast.Name(id=bkey, ctx=ast.Load()), attr='__setitem__', ctx=ast.Load()),
+                                args=[ast.Name(id=ikey, ctx=ast.Load()), ast.Name(id=key, ctx=ast.Load())], keywords=[])
                 for x in ast.walk(call):
                     if not hasattr(x, 'lineno'):
                         x.lineno, x.col_offset, x.end_lineno, x.end_col_offset = getattr(node, 'lineno', 0), 0, getattr(node, 'lineno', 0), 0
                 res = self._inline_single(call, s)
-                s.env.pop(key, None)
+                for k_ in (key, bkey, ikey):
+                    s.env.pop(k_, None)
                 if res is None:
                     self.imprecise.append('%s[...] = ... on a heap object could not be interpreted (line %s)' % (_text(t.value), getattr(node, 'lineno', '?')))
                 return
@@ -1689,10 +1696,14 @@ class Interp:
         if self.heap and isinstance(base, Obj) and isinstance(base.cls, M.ClassInfo) and '__items' not in base.attrs and self.model is not None \
            and isinstance(n.ctx, ast.Load) and self.inline_depth > 0 and len(self._inline_stack) < self.inline_depth \
            and self.model.find_method(base.cls, '__getitem__') is not None:
-            call = ast.Call(func=ast.Attribute(value=n.value, attr='__getitem__', ctx=ast.Load()), args=[n.slice], keywords=[])
-            ast.copy_location(call, n)
-            ast.copy_location(call.func, n)
+            bkey = '__base@%d' % len(self._inline_stack)
+            s.env[bkey] = base            # the receiver was evaluated once above
+            call = ast.Call(func=ast.Attribute(value=ast.Name(id=bkey, ctx=ast.Load()), attr='__getitem__', ctx=ast.Load()), args=[n.slice], keywords=[])
+            for x in ast.walk(call):
+                if not hasattr(x, 'lineno'):
+                    ast.copy_location(x, n)
             res = self._inline_single(call, s)
+            s.env.pop(bkey, None)
             return res[0] if res is not None else TOP
         idx = self.ev(n.slice, s)
         if isinstance(base, Obj) and isinstance(base.attrs.get('__items'), dict) and is_concrete(idx):
